@@ -205,3 +205,11 @@ for _p in ('C01', 'C06', 'C11', 'C03'):
     CHECKS[_p]['stages'].append(_rt_nd(_p, 1500, 30000))
 for _p in ('C02', 'C06', 'C11'):
     CHECKS[_p]['stages'].append(_e4_nd(_p, 1200, 24000))
+
+
+# thorough tier: wider bounds of the runtime campaign (up to 40 LPs, 12 threads, goals up to ~650 events)
+for _p, _spec in CHECKS.items():
+    for _st in _spec['stages']:
+        if _st['harness'] in ('h_runtime', 'h_mpi'):
+            _st['thorough'].setdefault('env', {})
+            _st['thorough']['env']['RSV_DEEP'] = 1
